@@ -1,6 +1,7 @@
 package mon
 
 import (
+	"encoding/json"
 	"fmt"
 	"net/url"
 	"sort"
@@ -234,6 +235,7 @@ func C13(c *run.Ctx) {
 		}
 	}
 	c13RequestObjects(c)
+	c13KeyRotation(c)
 	c13PARPlacement(c)
 }
 
@@ -357,6 +359,103 @@ func c13RequestObjects(c *run.Ctx) {
 					}
 				}
 			}
+		}
+	}
+}
+
+// c13KeyRotation: a client registered with a jwks_uri rotates its key; once the server has seen the new key set (it had to
+// re-read the jwks_uri to verify an object signed with the new key), an object signed with the retired key is not "properly
+// signed" any more. Runs over fosite's shipped JWKS fetcher (with its cache) and a stub transport.
+func c13KeyRotation(c *run.Ctx) {
+	if !c.Mine(4) && c.NShards > 4 {
+		return
+	}
+	keys := world.GetKeys()
+	for vi, via := range []string{"request", "request_uri", "par"} {
+		w := world.New(world.Opts{RealJWKS: true})
+		w.AddClient(world.ClientSpec{ID: "rot", Kind: "oidc", Secret: "srot", AuthMethod: "client_secret_basic", JWKSURI: "https://keys.example/rot/jwks.json", RequestURIs: []string{"https://client.example/rot.jwt"},
+			RedirectURIs: []string{"https://rot.example/cb"}, GrantTypes: world.AllGrants, ResponseTypes: world.AllResponseTypes, Scopes: []string{"openid", "fosite", "offline"}})
+		var served *jose.JSONWebKeySet
+		fetches := 0
+		var obj string
+		w.Fetch = func(u string) (int, string) {
+			if strings.Contains(u, "jwks.json") {
+				fetches++
+				b, _ := json.Marshal(served)
+				return 200, string(b)
+			}
+			return 200, obj
+		}
+		n := 0
+		present := func(key interface{}, kid string) (bool, string) {
+			n++
+			st := fmt.Sprintf("rot-state-%d-0123456789", n)
+			h := map[string]interface{}{}
+			if kid != "" {
+				h["kid"] = kid
+			}
+			obj = world.SignJWT(key, "RS256", h, map[string]interface{}{"iss": "rot", "aud": world.Issuer, "client_id": "rot", "response_type": "code", "scope": "openid fosite", "state": st,
+				"redirect_uri": "https://rot.example/cb", "exp": time.Now().Add(time.Hour).Unix(), "nonce": "nonce-0123456789"})
+			q := url.Values{"client_id": {"rot"}, "response_type": {"code"}, "scope": {"openid"}, "state": {"query-state-0123456789"}, "redirect_uri": {"https://rot.example/cb"}}
+			var out *world.AuthzOut
+			switch via {
+			case "request":
+				q.Set("request", obj)
+				out = w.Authorize(q, world.Consent{})
+			case "request_uri":
+				q.Set("request_uri", "https://client.example/rot.jwt")
+				out = w.Authorize(q, world.Consent{})
+			default:
+				q.Set("request", obj)
+				p := w.PAR(q, world.Basic("rot", "srot"))
+				if p.Err != nil {
+					w.JWKSSettle()
+					return false, "push: " + p.ErrName
+				}
+				out = w.Authorize(url.Values{"client_id": {"rot"}, "request_uri": {p.S("request_uri")}}, world.Consent{})
+			}
+			w.JWKSSettle()
+			return out.Err == nil && out.Params.Get("state") == st, out.ErrName
+		}
+		k0, k1 := keys.ClientRSA[0], keys.ClientRSA[1]
+		var hist []string
+		step := func(what string, key interface{}, kid string, must int) bool { // must: 1 honoured, 0 refused
+			ok, en := present(key, kid)
+			hist = append(hist, fmt.Sprintf("%s => honoured=%v %s (jwks fetches so far %d)", what, ok, en, fetches))
+			c.Case(fmt.Sprintf("key-rotation via=%s step=%q honoured=%v", via, what, ok))
+			c.Count("c13_rotation_steps", 1)
+			switch {
+			case must == 0 && ok:
+				c.Violate(run.Violation{Kind: "request-object-honoured", Key: "request-object-honoured signed-with-retired-key via=" + via, Detail: what + ": the object's parameters were honoured", History: append([]string(nil), hist...)})
+			case must == 1 && !ok:
+				c.Count("c13_rotation_rightful_refused", 1)
+			}
+			return ok
+		}
+		// every rotation publishes the new key under a new kid (a server that caches key sets learns about a rotation only
+		// when it meets a kid it does not know; re-keying under an unchanged kid is outside what the statement promises)
+		set := func(pub interface{}, kid string) *jose.JSONWebKeySet {
+			return &jose.JSONWebKeySet{Keys: []jose.JSONWebKey{{Key: pub, KeyID: kid, Algorithm: "RS256", Use: "sig"}}}
+		}
+		served = set(&k0.PublicKey, "kid-1")
+		step("object signed with the published key K1", k0, "kid-1", 1)
+		step("object signed with an unpublished key K2", k1, "kid-2", 0)
+		step("object signed with an unpublished key K2 under the published kid", k1, "kid-1", 0)
+		served = set(&k1.PublicKey, "kid-2") // K1 retired
+		seen := step("after rotation: object signed with the new key K2", k1, "kid-2", 1)
+		if seen {
+			step("after the server has seen the rotation: object signed with the retired key K1", k0, "kid-1", 0)
+			step("after the server has seen the rotation: object signed with the retired key K1, no kid", k0, "", 0)
+			step("object signed with K2 again", k1, "kid-2", 1)
+		}
+		served = set(&k0.PublicKey, "kid-3")
+		seen = step("second rotation: object signed with the new key", k0, "kid-3", 1)
+		if seen {
+			step("object signed with the key retired by the second rotation", k1, "kid-2", 0)
+			step("object signed with the key retired by the second rotation, no kid", k1, "", 0)
+		}
+		if vi == 0 {
+			c.Sample(map[string]interface{}{"key_rotation": hist})
 		}
 	}
 }
